@@ -925,6 +925,122 @@ def gen_complex_convert(repo, dtypes):
     return m
 
 
+def gen_asarray_shim(repo):
+    """T26: the NumPy 1.x compatibility shim `_numpy1x.asarray` statement by statement over the NumPy 1.x primitives of Model/Heap.lean
+    (np.asarray without a copy argument, np.copy, `is`, `.base is None`), and the table of the call sites of `_np_asarray` in the
+    factories: which expressions are handed over as the array, the dtype and the copy flag"""
+    ast = T.ast
+    m = T.Module(f"{repo}/src/nitypes/_numpy1x.py", "Gen.AsarrayShim")
+    m.extra_imports = ["NiVerif.Model.Heap"]
+    fn = m.find_func(None, "asarray")
+    a = fn.args
+    if [x.arg for x in a.args] != ["a", "dtype"] or [x.arg for x in a.kwonlyargs] != ["copy"] or [ast.unparse(d) for d in a.defaults] != ["None"] \
+            or [ast.unparse(d) for d in a.kw_defaults] != ["None"] or a.vararg or a.kwarg or a.posonlyargs:
+        raise T.Untranslatable("_numpy1x.asarray: signature is not (a, dtype=None, *, copy=None)", fn, m.path)
+    ATOM = {"b is a": "(b.isA = true)", "b is not a": "(b.isA = false)", "b.base is None": "(b.baseNone = true)", "b.base is not None": "(b.baseNone = false)",
+            "copy is True": "(copy = some true)", "copy is False": "(copy = some false)", "copy is None": "(copy = none)",
+            "copy is not None": "(copy ≠ none)"}
+    bools = set()
+
+    def cond(e):
+        if isinstance(e, ast.BoolOp):
+            return "(" + (" ∧ " if isinstance(e.op, ast.And) else " ∨ ").join(cond(v) for v in e.values) + ")"
+        if isinstance(e, ast.UnaryOp) and isinstance(e.op, ast.Not):
+            return "(¬ " + cond(e.operand) + ")"
+        if isinstance(e, ast.Name) and e.id in bools:
+            return f"({e.id} = true)"
+        s = ast.unparse(e)
+        if s in ATOM:
+            return ATOM[s]
+        raise T.Untranslatable(f"_numpy1x.asarray: condition `{s}` is outside the vocabulary", e, m.path)
+
+    def arrexpr(e):
+        s = ast.unparse(e)
+        if s == "np.asarray(a, dtype)":
+            return "Model.Heap.npAsarrayLegacy h a sub owns dtype"
+        if s == "np.copy(b)":
+            return "Model.Heap.npCopy b"
+        if s == "b":
+            return "b"
+        raise T.Untranslatable(f"_numpy1x.asarray: expression `{s}` is outside the vocabulary", e, m.path)
+
+    body = [st for st in fn.body if not (isinstance(st, ast.Expr) and isinstance(st.value, ast.Constant))]
+    lines = []
+    have_b = False
+    for k, st in enumerate(body):
+        if isinstance(st, ast.Assign) and len(st.targets) == 1 and isinstance(st.targets[0], ast.Name):
+            t = st.targets[0].id
+            if t == "b":
+                lines.append(f"  let b : Model.Heap.AsRes := {arrexpr(st.value)}")
+                have_b = True
+            elif have_b and t not in ("a", "dtype", "copy", "h", "sub", "owns"):
+                lines.append(f"  let {t} : Bool := decide {cond(st.value)}")
+                bools.add(t)
+            else:
+                raise T.Untranslatable(f"_numpy1x.asarray: assignment to `{t}`", st, m.path)
+        elif isinstance(st, ast.If) and not st.orelse and len(st.body) == 1:
+            inner = st.body[0]
+            if isinstance(inner, ast.Assign) and ast.unparse(inner.targets[0]) == "b" and have_b:
+                lines.append(f"  let b : Model.Heap.AsRes := if {cond(st.test)} then {arrexpr(inner.value)} else b")
+            elif isinstance(inner, ast.Raise) and isinstance(inner.exc, ast.Call) and ast.unparse(inner.exc.func) in ("ValueError", "TypeError"):
+                lines.append(f"  if {cond(st.test)} then Except.error PyErr.{ast.unparse(inner.exc.func)} else")
+            else:
+                raise T.Untranslatable(f"_numpy1x.asarray: statement `{ast.unparse(st)}` is outside the vocabulary", st, m.path)
+        elif isinstance(st, ast.Return) and k == len(body) - 1 and ast.unparse(st.value) == "b" and have_b:
+            lines.append("  Except.ok (b.heap, b.ref)")
+        else:
+            raise T.Untranslatable(f"_numpy1x.asarray: statement `{ast.unparse(st)}` is outside the vocabulary", st, m.path)
+    if not lines or not lines[-1].startswith("  Except.ok"):
+        raise T.Untranslatable("_numpy1x.asarray does not end in `return b`", fn, m.path)
+    m.out.append("/-- generated from `_numpy1x.asarray` (`sub`: `a` is an instance of an ndarray subclass; `owns`: `a.base is None`) -/")
+    m.out.append("@[pygen] def asarray (h : Model.Heap.Heap) (a : Model.Heap.Src) (sub owns : Bool) (dtype : Option Nat) (copy : Option Bool) : Except PyErr (Model.Heap.Heap × Model.Heap.Ref) :=\n" + "\n".join(lines))
+    m.out.append("")
+    # which implementation the package uses: NumPy 2's own asarray, or the shim below 2.0
+    sel = T.Module(f"{repo}/src/nitypes/_numpy.py", "Gen.AsarrayShim")
+    sws = [n for n in sel.tree.body if isinstance(n, ast.If)]
+    if len(sws) != 1 or not sws[0].orelse:
+        raise T.Untranslatable("_numpy.py: the version switch is not a single if / else", where=sel.path)
+    sw = sws[0]
+    def imported(block, name):
+        for n in block:
+            if isinstance(n, ast.ImportFrom):
+                for al in n.names:
+                    if (al.asname or al.name) == name:
+                        return f"{n.module}.{al.name}"
+        return None
+    first, second = imported(sw.body, "asarray"), imported(sw.orelse, "asarray")
+    if {first, second} != {"numpy.asarray", "nitypes._numpy1x.asarray"}:
+        raise T.Untranslatable(f"_numpy.py: `asarray` comes from {first} / {second}", sw, sel.path)
+    m.out.append("/-- generated from `_numpy.py`: the test of the version switch and where `asarray` comes from in its two branches -/")
+    m.out.append(f"@[pygen] def asarray_switch : String × String × String := ({json.dumps(ast.unparse(sw.test))}, {json.dumps(first)}, {json.dumps(second)})")
+    m.out.append("")
+    # the call sites
+    sites = []
+    for path, cls in (("waveform/_numeric.py", "NumericWaveform"), ("waveform/_digital/_waveform.py", "DigitalWaveform"), ("waveform/_spectrum.py", "Spectrum"), ("xy_data.py", "XYData")):
+        mk = T.Module(f"{repo}/src/nitypes/{path}", "Gen.AsarrayShim")
+        c = mk.find_class(cls)
+        for f in c.body:
+            if not isinstance(f, ast.FunctionDef):
+                continue
+            for n in ast.walk(f):
+                if isinstance(n, ast.Call) and ast.unparse(n.func) in ("_np_asarray", "np.asarray", "np.array", "np.asanyarray", "np.ascontiguousarray") \
+                        and (ast.unparse(n.func) == "_np_asarray" or f.name.startswith("from_")):
+                    args = [ast.unparse(x) for x in n.args]
+                    kw = {k.arg: ast.unparse(k.value) for k in n.keywords}
+                    if ast.unparse(n.func) != "_np_asarray":
+                        raise T.Untranslatable(f"{cls}.{f.name}: an array is made with `{ast.unparse(n)}` and not with the package's asarray", n, mk.path)
+                    if len(args) > 2 or set(kw) - {"copy", "dtype"}:
+                        raise T.Untranslatable(f"{cls}.{f.name}: `{ast.unparse(n)}`", n, mk.path)
+                    dt = args[1] if len(args) > 1 else kw.get("dtype", "-")
+                    sites.append((cls, f.name, args[0], dt, kw.get("copy", "-")))
+    sites.sort()
+    m.out.append("/-- generated from the factories: every call of the package's `asarray` - (class, method, array expression, dtype expression, copy expression; `-` = not passed) -/")
+    m.out.append("@[pygen] def asarray_sites : List (String × String × String × String × String) := [\n  "
+                 + ",\n  ".join("(" + ", ".join(json.dumps(x) for x in s) + ")" for s in sites) + "]")
+    m.out.append("")
+    return m
+
+
 MODULES = [
     # (output file, builder, dependencies by output name)
     ("TimeValueTuple", lambda repo, deps: gen_time_value_tuple(repo), []),
@@ -956,6 +1072,7 @@ MODULES = [
     ("ScaledData", lambda repo, deps: gen_scaled_data(repo, deps["Scaling"]), ["Scaling"]),
     ("Conversion", lambda repo, deps: gen_conversion(repo, deps["TimeDelta"]), ["TimeDelta"]),
     ("ComplexConvert", lambda repo, deps: gen_complex_convert(repo, deps["ComplexDtypes"]), ["ComplexDtypes"]),
+    ("AsarrayShim", lambda repo, deps: gen_asarray_shim(repo), []),
 ]
 
 
